@@ -263,4 +263,27 @@ example : ([SlotOp.settings 3, .open_, .open_, .close, .settings 200, .open_].fo
     { sem := 98, held := 2, maxS := 100, debt := 0 } := by decide
 example : routeAll [1, 3] (fun _ => []) [(1, 10), (3, 30), (5, 50), (1, 11)] 1 = [10, 11] := by decide
 
+/-! ## acknowledgements leave with whoever read the frame -/
+
+/-- what one call of `_receive_events` does to h2's outbound buffer: the read may make h2 queue `q` bytes (the acknowledgement of a PING
+or of SETTINGS, a window update); then the flush the source has - or has not - at the end of the function -/
+def afterReceiveEvents (buffered q : Nat) : Nat :=
+  if Gen.receiveEventsAlwaysFlushes then 0 else buffered + q
+
+/-- **acks_leave_with_the_reader** - Tie A (regenerated): `_receive_events` ends with an unconditional `_write_outgoing_data`, so after
+every call, whichever stream's caller made it and whatever the read delivered, nothing h2 queued in answer to the peer is left in its
+buffer: a server that waits for an acknowledgement before it sends more cannot be starved by a reader whose own stream needs no write. -/
+theorem acks_leave_with_the_reader (b : Nat) (qs : List Nat) (h : qs ≠ []) :
+    qs.foldl afterReceiveEvents b = 0 := by
+  have hf : Gen.receiveEventsAlwaysFlushes = true := by decide
+  induction qs generalizing b with
+  | nil => exact absurd rfl h
+  | cons q rest ih =>
+    cases rest with
+    | nil => simp [afterReceiveEvents, hf]
+    | cons r rest' => simpa [List.foldl_cons] using ih (afterReceiveEvents b q) (by simp)
+
+example : [8, 0, 17].foldl afterReceiveEvents 5 = 0 := by decide
+
+
 end Httpcore.C12
